@@ -76,6 +76,11 @@ func (m *Machine) rangeCalc(t *Term) rng {
 		if a.hi <= mask(w)-b.hi && a.hi+b.hi >= a.hi {
 			return rng{a.lo + b.lo, a.hi + b.hi}
 		}
+	case OpMul:
+		a, b := m.rangeOf(t.Args[0]), m.rangeOf(t.Args[1])
+		if a.hi < 1<<31 && b.hi < 1<<31 && a.hi*b.hi <= mask(w) {
+			return rng{a.lo * b.lo, a.hi * b.hi}
+		}
 	case OpSub:
 		a, b := m.rangeOf(t.Args[0]), m.rangeOf(t.Args[1])
 		if a.lo >= b.hi {
@@ -127,6 +132,13 @@ func (m *Machine) rangeCalc(t *Term) rng {
 		a, b := m.rangeOf(t.Args[0]), m.rangeOf(t.Args[1])
 		if b.lo > 0 {
 			return rng{a.lo / b.hi, a.hi / b.lo}
+		}
+	case OpFToS, OpFToU:
+		if _, ok := m.floatVarsOnly(t.Args[0]); ok {
+			e := m.fEnclosure(t.Args[0], m.fbound)
+			if e.ok && e.lo >= 0 && e.hi < 9e15 {
+				return rng{uint64(e.lo), uint64(e.hi)}
+			}
 		}
 	case OpTable:
 		idx := m.rangeOf(t.Args[0])
@@ -209,6 +221,8 @@ func (m *Machine) implied(c *Term, depth int) (val bool, ok bool) {
 		if ka && kb {
 			return false, true
 		}
+	case OpFLT, OpFLE, OpFEQ:
+		return m.impliedFP(c)
 	case OpULT, OpULE:
 		if c.Args[0].Sort.K != KBV {
 			break
